@@ -1,7 +1,7 @@
 import numpy as np
 import scipy.stats as sps
 from cuqi.geometry import _get_identity_geometries
-from cuqi.utilities import force_ndarray
+from cuqi.utilities import force_ndarray, approx_gradient
 from cuqi.distribution import Distribution
 
 class Cauchy(Distribution):
@@ -87,6 +87,10 @@ class Cauchy(Distribution):
         return np.sum(sps.cauchy.cdf(x, loc=self.location, scale=self.scale))
     
     def gradient(self, x):
+
+        # Use FD approximation if requested (as Density.gradient does)
+        if self.FD_enabled:
+            return approx_gradient(self.logd, x, epsilon=self.FD_epsilon)
 
         #Avoid complicated geometries that change the gradient.
         if not type(self.geometry) in _get_identity_geometries():
